@@ -399,7 +399,8 @@ static void families(unsigned long long& unit)
 	for(int p : {15, 21})
 		for(auto br : std::vector<std::pair<double, double>>{{0, 3}, {-1, 2.5}, {0.5, 1.75}})
 			fams.push_back({"shifted_pow_p" + std::to_string(p), [p](ld x) { return powl(x - 1, p); }, br.first, br.second, {1}});
-	for(double sc : {1e-160, 1e-200, 1e150})
+	// (1e-310 and 3e-320: every value the function takes is a subnormal number)
+	for(double sc : {1e-160, 1e-200, 1e150, 1e-310, 3e-320, 1e300})
 	{
 		fams.push_back({"scaled_cubic_s" + mc::dec(sc), [sc](ld x) { return sc * (x * x * x - 2); }, 0, 3, {cbrtl(2.0L)}});
 		fams.push_back({"scaled_tanh_s" + mc::dec(sc), [sc](ld x) { return sc * (tanhl(x) - 0.3L); }, -5, 8, {atanhl(0.3L)}});
